@@ -45,6 +45,8 @@ def verdict_class(v):
         return "safety", k
     if v.startswith("differ:"):
         return "differ", v.split(":", 1)[1]
+    if v.startswith("uninit:"):
+        return "uninit", v.split(":", 1)[1]
     if v.startswith("cfg-differ:"):
         return "cfg", v.split(":", 1)[1]
     return "other", v
@@ -52,12 +54,8 @@ def verdict_class(v):
 
 def collect_edges(modules, tier, cap, ops=None, depth2=0, select=None, nshards=4, **kw):
     jobs = make_jobs(modules, seed(), cap, nshards=nshards, ops=ops, depth2=depth2, select=select, **kw)
-    results = run_jobs(jobs)
-    edges = []
-    for r in results:
-        if not r["ok"]:
-            raise MachineryError("edge worker failed:\n" + r["err"])
-        edges.extend(r["edges"])
+    edges = run_jobs(jobs)
+    edges.sort(key=lambda e: (e["prog"], e["op"], e["args"], str(e.get("chain"))))
     return edges
 
 
@@ -87,7 +85,10 @@ def decide_edges(rep: Report, edges, viol_classes, stepbound, workdir, sig_fn=No
             first.setdefault(cls, (i, res.verdicts[(k, i)]))
         summ[k] = (cnt, first)
         n_inputs += len(u["inputs"])
-        n_conclusive += cnt["ok"] + sum(cnt[c] for c in ("differ", "cfg", "safety", "heap", "race", "trace", "binvalid"))
+        n_conclusive += cnt["ok"] + sum(cnt[c] for c in ("differ", "uninit", "cfg", "safety", "heap", "race", "trace", "binvalid"))
+    scope_bad = {k for k, (oka, okb) in res.scope.items() if oka and not okb}
+    rep.add_cov(units_scope_checked=len(res.scope), units_ill_scoped=len(scope_bad),
+                units_source_ill_scoped=sum(1 for oka, _ in res.scope.values() if not oka))
     # edges (including duplicates of an already-checked derived procedure)
     stats = collections.Counter()
     opstats = collections.defaultdict(collections.Counter)
@@ -99,6 +100,13 @@ def decide_edges(rep: Report, edges, viol_classes, stepbound, workdir, sig_fn=No
         cnt, first = summ[k]
         bad = [c for c in cnt if c in viol_classes]
         e["verdicts"] = dict(cnt)
+        if "scope" in viol_classes and k in scope_bad:
+            sig = {"op": e["op"], "class": "scope", "detail": "", "prog": e["prog"], "args": e["args"]}
+            sig.update({f"fact_{kk}": vv for kk, vv in e["facts"].items()})
+            rep.violation(edge_sig(sig, e, "scope"),
+                          {"edge": {kk: e[kk] for kk in ("prog", "op", "args", "facts", "chain") if kk in e},
+                           "verdict": "ExoProgram!WellScoped is FALSE for the derived unit",
+                           "text_a": e.get("text_a"), "text_b": e.get("text_b")})
         if not bad:
             if cnt["ok"] > 0:
                 stats["edges_ok"] += 1
@@ -135,6 +143,7 @@ def decide_edges(rep: Report, edges, viol_classes, stepbound, workdir, sig_fn=No
                 edges_rejected=sum(1 for e in edges if e["status"] == "rejected"),
                 edges_noop=sum(1 for e in edges if e["status"] == "noop"),
                 edges_export_error=sum(1 for e in edges if e["status"] == "export-error"),
+                edges_hung_killed=sum(1 for e in edges if e.get("exc") == "Hang(killed)"),
                 distinct_units=len(units), traces_validated_against_impl=len(units),
                 distinct_nontrivial=len(units))
     for kk, vv in stats.items():
